@@ -40,6 +40,8 @@ pub fn div_nxm_normalized(numerator: &mut [u64], divisor: &[u64]) {
 
         // Overflow case
         if unlikely(n21 == d) {
+            #[cfg(feature = "recmo_uint_verif")]
+            crate::verif_hooks::hit(149);
             let q = u64::MAX;
             let _carry = submul_nx1(&mut numerator[j..j + n], divisor, q);
             numerator[j + n] = q;
@@ -63,6 +65,8 @@ pub fn div_nxm_normalized(numerator: &mut [u64], divisor: &[u64]) {
         // If we have a carry then the quotient was one too large.
         // We correct by decrementing the quotient and adding one divisor back.
         if unlikely(borrow) {
+            #[cfg(feature = "recmo_uint_verif")]
+            crate::verif_hooks::hit(150);
             q = q.wrapping_sub(1);
             let carry = adc_n(&mut numerator[j..j + n], &divisor[..n], 0);
             // Expect carry because we flip sign back to positive.
@@ -140,6 +144,10 @@ pub fn div_nxm(numerator: &mut [u64], divisor: &mut [u64]) {
             // two remainder limbs.
             let (mut q, r) = div_3x2(n21, n0, d, v);
 
+            #[cfg(feature = "recmo_uint_verif")]
+            if q == 0 {
+                crate::verif_hooks::hit(147);
+            }
             if q != 0 {
                 // Subtract the quotient times the divisor from the remainder.
                 // We already have the highest 128 bit, so we can reduce the
@@ -162,6 +170,8 @@ pub fn div_nxm(numerator: &mut [u64], divisor: &mut [u64]) {
                 // If we have a carry then the quotient was one too large.
                 // We correct by decrementing the quotient and adding one divisor back.
                 if unlikely(borrow) {
+                    #[cfg(feature = "recmo_uint_verif")]
+                    crate::verif_hooks::hit(if shift == 0 { 145 } else { 146 });
                     q = q.wrapping_sub(1);
                     let carry = adc_n(&mut numerator[j..j + n], &divisor[..n], 0);
                     // Expect carry because we flip sign back to positive.
@@ -170,6 +180,8 @@ pub fn div_nxm(numerator: &mut [u64], divisor: &mut [u64]) {
             }
             q
         } else {
+            #[cfg(feature = "recmo_uint_verif")]
+            crate::verif_hooks::hit(144);
             // Overflow case
             let q = u64::MAX;
             let _carry = submul_nx1(&mut numerator[j..j + n], divisor, q);
@@ -181,6 +193,10 @@ pub fn div_nxm(numerator: &mut [u64], divisor: &mut [u64]) {
             numerator[j + n] = q;
         } else {
             q_high = q;
+            #[cfg(feature = "recmo_uint_verif")]
+            if q != 0 {
+                crate::verif_hooks::hit(148);
+            }
         }
     }
 
